@@ -1177,6 +1177,29 @@ theorem step_inv {s s' : State} (hL : Ledger s) (hA : Aux s) (h : WO s) {l : Lab
   | result f r =>
     injection hstep with hstep; subst hstep
     exact ⟨hA.execResult f r, h.preserve_sub (execResult_sub s f r) (execResult_transfers s f r)⟩
+  | inbound p =>
+    injection hstep with hstep; subst hstep
+    unfold inbound
+    split
+    · rename_i hp
+      refine ⟨hA.of_sublist ?_ (List.Sublist.refl _) (List.Sublist.refl _) (List.Sublist.refl _) rfl,
+        h.of_same rfl ?_⟩
+      · intro x hx
+        simp only [] at hx
+        split at hx
+        · exact hA.ctxConn x hx
+        · rcases List.mem_append.mp hx with hx | hx
+          · exact hA.ctxConn x hx
+          · simp at hx; subst hx; exact hp
+      · constructor <;> intro x hx <;> first | exact hx | skip
+        simp only []
+        split
+        · exact hx
+        · exact List.mem_append_left _ hx
+    · exact ⟨hA, h⟩
+  | inboundFailed p =>
+    injection hstep with hstep; subst hstep
+    exact ⟨hA.disconnectPeer p none, h.preserve_sub (disconnectPeer_sub s p none) (disconnectPeer_transfers s p none)⟩
 
 theorem inv_reachable {s : State} (h : Reachable s) : Aux s ∧ WO s := by
   induction h with
